@@ -4,7 +4,7 @@ from props.common import scenario_harness, edit_before_run
 from props import oracles as O
 
 TITLE = "a job never starts before all its requirements finished"
-BUDGET = {"quick": 200, "thorough": 1500}
+BUDGET = {"quick": 240, "thorough": 900}
 OUTSIDE = ["more than 5 atomic jobs", "nesting depth > 3", "iteration orders other than one total order per "
            "scheduler applied to all its job sets", "event loops other than the virtual-time loop"]
 ASSUMPTIONS = ["requirement graphs are acyclic and closed by construction (edges only between siblings, "
